@@ -302,6 +302,19 @@ def melody(ctx):
     ok = same and keep and bool(neg)
   ctx.ob('MEL/polyphony', fi, chain or loop, ok, 'a second note on an occupied step is skipped (highest first) or raises PolyphonicMelodyError; a note before the last onset raises' if ok else
          'the polyphony rule is not "same onset step -> skip if ignore_polyphonic_notes else raise; earlier step -> raise"')
+  # location-independent: the bar length used for the gap is the one of *this* sequence, i.e. it is read after
+  # self._steps_per_bar has been set for this call (before that the object still holds the default / a previous value)
+  top = list(fn.body)
+  sidx = next((i for i, s_ in enumerate(top) if isinstance(s_, ast.Assign) and any(norm_text(t) == 'self._steps_per_bar' for t in s_.targets)), None)
+  if sidx is not None:
+    for i, s_ in enumerate(top):
+      for b_ in ast.walk(s_):
+        if isinstance(b_, ast.BinOp) and isinstance(b_.op, ast.Mult) and any(isinstance(x, ast.Name) and x.id == 'gap_bars' for x in (b_.left, b_.right)):
+          other = b_.right if isinstance(b_.left, ast.Name) and b_.left.id == 'gap_bars' else b_.left
+          stale = i < sidx and isinstance(other, ast.Attribute) and other.attr in ('steps_per_bar', '_steps_per_bar')
+          ctx.ob('MEL/gap-bar-length', fi, b_, not stale, 'the gap length uses the bar length of this sequence' if not stale else
+                 '%s is computed before self._steps_per_bar is set for this sequence: the gap is measured in bars of the previous / default length' % norm_text(b_),
+                 construct='gap_bars * steps per bar of this sequence', definite=True)
   gap = next((s for s in loop.body if isinstance(s, ast.If) and isinstance(s.body[-1], ast.Break)), None)
   ok = False
   if gap is not None:
@@ -355,42 +368,70 @@ def drums(ctx):
 
 
 def drum_gap(ctx, rule='DRUM/gap'):
-  """The track ends at the first hit that follows gap_bars whole bars of silence.  Silence starts at the step
-  after the previous hit: gap origin = (index of the last stored event) + 1, distance = index - origin,
-  end iff distance >= gap_bars * steps_per_bar (and the track is not empty).  Shared with C06."""
+  """The track ends at the first hit that follows gap_bars whole bars of silence.  Silence starts at the step after the
+  previous hit, so with  origin := <index of a stored hit> + c1  after every hit and the test  index - origin + c0 >= limit,
+  the compared quantity is  index - previous index + (c0 - c1):  c0 - c1 must be -1 and the limit gap_bars * steps_per_bar.
+  Decided in normal form, whatever the names and wherever the statements stand in the loop.  Shared with C06."""
   fi = ctx.func('drums_lib:DrumTrack.from_quantized_sequence')
   fn = fi.node
   loop = next((n for n in fn.body if isinstance(n, ast.For) and isinstance(n.target, ast.Tuple)), None)
   ctx.require(loop is not None, 'DrumTrack.from_quantized_sequence: group loop not found')
-  st = [s for s in loop.body if isinstance(s, ast.Assign) and isinstance(s.targets[0], ast.Subscript) and norm_text(s.targets[0].value) == 'self._events']
+  st = [s for s in U.walk_stmts(loop) if isinstance(s, ast.Assign) and isinstance(s.targets[0], ast.Subscript) and norm_text(s.targets[0].value) == 'self._events']
   ctx.require(len(st) == 1 and isinstance(st[0].targets[0].slice, ast.Name), 'DrumTrack.from_quantized_sequence: event store not found')
   idx = st[0].targets[0].slice.id
   brk = [s for s in loop.body if isinstance(s, ast.If) and any(isinstance(x, ast.Break) for x in s.body)]
   ctx.require(len(brk) == 1, 'DrumTrack.from_quantized_sequence: expected one gap test with break, found %d' % len(brk))
   spb = [t.id for s2 in fn.body if isinstance(s2, ast.Assign) and any(norm_text(t) == 'self._steps_per_bar' for t in s2.targets) for t in s2.targets if isinstance(t, ast.Name)]
   ctx.require(len(spb) == 1, 'DrumTrack.from_quantized_sequence: the local steps-per-bar value was not found')
-
-  def rat_or_none(v):
+  # locals of one iteration (and hoisted constants of the function) are looked through
+  env = {}
+  for s2 in list(fn.body) + list(loop.body):
+    if isinstance(s2, ast.Assign) and len(s2.targets) == 1 and isinstance(s2.targets[0], ast.Name) and s2.targets[0].id != idx and \
+        sum(1 for x in U.walk_stmts(fn) for (t, _v, _o) in U.store_targets(x) if isinstance(t, ast.Name) and t.id == s2.targets[0].id) == 1:
+      env[s2.targets[0].id] = s2.value
+  verdict = None        # (ok, explanation) once the test was understood
+  why = 'the gap test was not recognised'
+  gnode = brk[0]
+  for c in conj(brk[0].test):
+    if not (isinstance(c, ast.Compare) and len(c.ops) == 1 and isinstance(c.ops[0], (ast.Lt, ast.LtE))):
+      continue
+    small, big = c.left, c.comparators[0]          # loader orientation:  small <(=) big
     try:
-      return nf.rat(v)
+      lim = nf.Builder(dict(env)).rat(small)
+      dist = nf.Builder(dict(env)).rat(big)
     except nf.NFError:
-      return None
-  assigns = [s2 for s2 in loop.body if isinstance(s2, ast.Assign) and len(s2.targets) == 1 and isinstance(s2.targets[0], ast.Name)]
-  after_test = [s2 for s2 in assigns if s2.lineno > brk[0].lineno]      # the origin is moved after the gap test of this hit, before or after the store
-  gaps = [s2 for s2 in after_test if rat_or_none(s2.value) is not None and rat_or_none(s2.value).equals(nf.rat(E(idx)) + nf.rat(E('1')))]
-  any_after = after_test
-  ok_upd = len(gaps) == 1
-  gname = gaps[0].targets[0].id if gaps else (any_after[0].targets[0].id if len(any_after) == 1 else None)
-  init = [s2 for s2 in fn.body if isinstance(s2, ast.Assign) and gname and norm_text(s2.targets[0]) == gname and s2.lineno < loop.lineno]
-  ok_init = len(init) == 1 and U.const_value(init[0].value) == 0
-  dist = [s2.targets[0].id for s2 in assigns if gname and s2.lineno < brk[0].lineno and rat_or_none(s2.value) is not None and
-          rat_or_none(s2.value).equals(nf.rat(E('%s - %s' % (idx, gname))))]
-  ok_cmp = len(dist) == 1 and any(isinstance(c, ast.Compare) and has(c, '%s >= gap_bars * %s' % (dist[0], spb[0])) for c in conj(brk[0].test)) and \
-      any(norm_text(c) in ('len(self)', 'self._events') for c in conj(brk[0].test))
-  ok = ok_upd and ok_init and ok_cmp
-  ctx.ob(rule, fi, gaps[0] if gaps else brk[0], ok, 'silence is measured from the step after the previous hit and ends the track at gap_bars whole bars' if ok else
-         'the silence before a hit is not (index - (previous hit index + 1)) compared with >= gap_bars * steps_per_bar (origin update ok: %s, origin starts at 0: %s, test ok: %s): '
-         'hits exactly gap_bars bars apart end the track one step early or late' % (ok_upd, ok_init, ok_cmp), construct='drum gap = index - (previous index + 1) >= gap_bars * steps_per_bar')
+      continue
+    if not lim.equals(nf.rat(E('gap_bars * %s' % spb[0]))):
+      if any(isinstance(n, ast.Name) and n.id == 'gap_bars' for n in ast.walk(U.expand_locals(fn, small, None))):
+        verdict = (False, 'the silence is compared with %s, not with gap_bars * steps_per_bar' % norm_text(small))
+      continue
+    strict = isinstance(c.ops[0], ast.Lt)
+    # dist = idx - X + c0  for exactly one carried name X
+    names = [n.id for n in ast.walk(big) if isinstance(n, ast.Name)] + [n.id for k in env for n in [ast.Name(id=k)] if False]
+    cands = [s2 for s2 in U.walk_stmts(loop) if isinstance(s2, ast.Assign) and isinstance(s2.targets[0], ast.Name) and s2.lineno > brk[0].lineno]
+    for upd in cands:
+      X = upd.targets[0].id
+      try:
+        c0 = (dist - nf.rat(E(idx)) + nf.rat(E(X))).const_value()
+        c1 = (nf.rat(upd.value) - nf.rat(E(idx))).const_value()
+      except nf.NFError:
+        continue
+      if c0 is None or c1 is None:
+        continue
+      init = [s2 for s2 in fn.body if isinstance(s2, ast.Assign) and norm_text(s2.targets[0]) == X and s2.lineno < loop.lineno]
+      eff = c0 - c1 - (1 if strict else 0)      # silence + eff >= limit   (a strict test `>` is `>= limit + 1`)
+      ok = eff == -1
+      verdict = (ok, 'the compared quantity is index - previous hit index %+d (%s %s after `%s`): whole bars of silence are index - previous index - 1' % (
+          c0 - c1, norm_text(c).replace('\n', ' '), '' , norm_text(upd)))
+      gnode = upd if not ok else brk[0]
+      break
+  if verdict is None:
+    ctx.ob(rule, fi, gnode, False, 'the drum gap test was not recognised as index - origin >= gap_bars * steps_per_bar with an origin moved after every hit',
+           construct='drum gap = index - (previous index + 1) >= gap_bars * steps_per_bar')
+  else:
+    ok, how = verdict
+    ctx.ob(rule, fi, gnode, ok, 'silence is measured from the step after the previous hit and ends the track at gap_bars whole bars' if ok else
+           '%s: hits exactly gap_bars bars apart end the track one step early or late' % how, construct='drum gap = index - (previous index + 1) >= gap_bars * steps_per_bar', definite=True)
 
 
 def note_perf_limit(ctx, rule='SHIFT/note-limit'):
